@@ -13,3 +13,11 @@ void h_Obs_postinc(void) { struct Obs *o; Obs__op_postinc(o, 0); CANARY; }
 void h_Obs_postdec(void) { struct Obs *o; Obs__op_postdec(o, 0); CANARY; }
 void h_Obs_value(void) { struct Obs *o; Obs__value__void(o); CANARY; }
 void h_Obs_deref(void) { struct Obs *o; Obs__op_deref__void(o); CANARY; }
+void h_ObsE_assign(void) { struct ObsE *o; int *v; ObsE__op_assign_T_int_ref(o, v); CANARY; }
+void h_ObsE_add(void) { struct ObsE *o; int *v; ObsE__op_add_assign_T_int_ref(o, v); CANARY; }
+void h_ObsE_sub(void) { struct ObsE *o; int *v; ObsE__op_sub_assign_T_int_ref(o, v); CANARY; }
+void h_ObsE_mul(void) { struct ObsE *o; int *v; ObsE__op_mul_assign_T_int_ref(o, v); CANARY; }
+void h_ObsE_inc(void) { struct ObsE *o; ObsE__op_inc(o); CANARY; }
+void h_ObsE_dec(void) { struct ObsE *o; ObsE__op_dec(o); CANARY; }
+void h_ObsE_postinc(void) { struct ObsE *o; ObsE__op_postinc(o, 0); CANARY; }
+void h_ObsE_postdec(void) { struct ObsE *o; ObsE__op_postdec(o, 0); CANARY; }
